@@ -2,7 +2,7 @@
 //
 //	import "sync"      -> import sync ".../pkg/zzverif/vsync"   (Mutex, RWMutex managed; WaitGroup, Once aliased)
 //	go f(args)         -> vsync.Go(func(){ f(args) })            (arguments evaluated before the spawn)
-//	io.Pipe()          -> vsync.Pipe()
+//	io.Pipe()          -> vsync.Pipe()   (and the types io.PipeReader / io.PipeWriter -> vsync.PipeReader / vsync.PipeWriter)
 //	time.Now()         -> vsync.Now()
 //
 // plus the virtual package pkg/zzverif/vsync. /repo itself is never written.
@@ -204,6 +204,24 @@ func rewrite(path string, src []byte) ([]byte, bool, error) {
 		})
 	}
 	rewriteExprs(f)
+	// type references io.PipeReader / io.PipeWriter (fields, parameters, variables) follow the rewritten io.Pipe()
+	if ioName != "" {
+		ast.Inspect(f, func(n ast.Node) bool {
+			se, ok := n.(*ast.SelectorExpr)
+			if !ok {
+				return true
+			}
+			id, ok := se.X.(*ast.Ident)
+			if !ok || id.Obj != nil || id.Name != ioName {
+				return true
+			}
+			if se.Sel.Name == "PipeReader" || se.Sel.Name == "PipeWriter" {
+				id.Name = alias
+				changed, needVsync = true, true
+			}
+			return true
+		})
+	}
 
 	tmp := 0
 	walkBlock = func(list []ast.Stmt) []ast.Stmt {
